@@ -30,6 +30,12 @@ CHECKS = {
  "C07": ("exploration", "status table oracle over exit-status sweep (library + scheduler) and CLI target sequences observed at the process boundary",
          "exit statuses at every command position produced four ways, with/without allow_failure, as direct runs and pipeline stages; CLI sequences of up to 3 targets in three invocation forms; process exit status and trace tokens compared with the statement.",
          "numeric value of a non-zero process status and Task fields after a failing before-hook are don't-cares", "DESIGN.md §4 C07"),
+ "C08": ("exploration", "recording-Runner snapshots under the real scheduler compared with task⊕stage overlay; race detector; CLI echo of every key",
+         "pipelines in which 2..6 stages share one task object with distinct overrides (parallel/chained/mixed, repeated, followed by a second pipeline and a direct run) — every execution's env/variables/dir must equal the task's settings overlaid with that stage's overrides and contain no foreign key; same through the binary.",
+         "a stage execution is identified by a marker key of its own override", "DESIGN.md §4 C08"),
+ "C13": ("exploration", "trace-token monitor (SURVIVED token after an overrunning command must never appear) on the real TaskRunner + process liveness + re-confirmed time bound",
+         "overrunning shapes at every command position and in hooks, with/without allow_failure, timeouts 100ms..1s; fitting commands and 'each command gets the full timeout' cases; duration spellings through the binary.",
+         "overrun margin >=20x timeout makes the main oracle a safety observation; the wall-clock bound is secondary and re-confirmed", "DESIGN.md §4 C13"),
 }
 PENDING = {}
 
